@@ -140,8 +140,14 @@ func TestVerif_C52(t *testing.T) {
 	sets = append(sets, s)
 
 	maxT := 300
+	nrec := 0
 	for _, ps := range sets {
 		for t := 1; t <= maxT; t++ {
+			// quick tier: every t for the set with all first bytes, elsewhere the small and the extreme t plus a seeded quarter
+			if !kit.Thorough() && ps.name != "all-bytes" && !(t <= 17 || (t >= 254 && t <= 258) || (t+int(kit.Seed()))%4 == 0) {
+				continue
+			}
+			nrec++
 			accepted := make([]bool, t)
 			sel := make([][][2]int, t)
 			errs := ""
@@ -160,7 +166,7 @@ func TestVerif_C52(t *testing.T) {
 			}
 		}
 	}
-	res.Count("bucket_records", len(sets)*maxT)
+	res.Count("bucket_records", nrec)
 	// t far above the maximum: must not be accepted for one n and refused for another
 	for _, tt := range []uint64{512, 65536, 1 << 32, 1<<63 + 5} {
 		a1, _, _ := vc52Apply(fmt.Sprintf("1/%d", tt), sets[1].copyPacks())
